@@ -26,7 +26,7 @@ ASSUMPTIONS = [
 
 DT = ["float32", "float32", "int32", "int8", "uint8", "bool", "float16", "int16", "uint32"]
 SH = [(), (3,), (2, 3), ("B", 3), ("B", "N"), (2, "N"), (1, 4, 4, 3), ("B", 4, 4, 2)]
-OPS = ["neg", "dbl", "sum", "gt", "cast_i32", "cast_f16", "shape0", "argmax", "cplx", "cast_i8", "cast_u8", "cast_i64"]
+OPS = ["neg", "dbl", "sum", "gt", "cast_i32", "cast_f16", "shape0", "argmax", "cplx", "cast_i8", "cast_u8", "cast_i64", "two_sided", "two_sided_relu"]
 
 
 def make_fn(sig):
@@ -67,6 +67,10 @@ def make_fn(sig):
                     res.append(jnp.asarray(x.shape[0] if x.ndim else 1))
                 elif k == "argmax":
                     res.append(jnp.argmax(x.astype(jnp.float32)) if x.ndim else jnp.asarray(0))
+                elif k in ("two_sided", "two_sided_relu"):
+                    t = jnp.sum(x.astype(jnp.float32))
+                    r = (jnp.ones((2, 1), jnp.float32) * t) + (jnp.ones((1, 3), jnp.float32) * t)
+                    res.append(jax.nn.relu(r) if k == "two_sided_relu" else r)
                 elif k == "cplx":
                     res.append(jax.lax.complex(x.astype(jnp.float32), x.astype(jnp.float32)))
             elif o[0] == "const":
@@ -198,8 +202,37 @@ def check_sig(sig, acc=None):
         P.append(("input_names", f"{[i.name for i in gi_pos]} vs requested {kw['input_names']}"))
     if "output_names" in kw and [o.name for o in go] != kw["output_names"]:
         P.append(("output_names", f"{[o.name for o in go]} vs requested {kw['output_names']}"))
-    if ("input_names" in kw or "output_names" in kw) and mode not in ("collide_io", "collide_dup"):
-        # (self-colliding requests only have to raise or be applied exactly)
+    if "input_names" in kw or "output_names" in kw:
+        # one name may only be shared by graph slots that hold the very same value (an output that *is* input i, or one value returned twice)
+        ident = [("in", i) for i in range(len(gi_pos))]
+        prev = None
+        res_ident = []
+        for oi, o in enumerate(sig["outs"]):
+            noop = {"cast_i32": "int32", "cast_f16": "float16", "cast_i8": "int8", "cast_u8": "uint8", "dbl": "bool"}
+            if o[0] == "in":
+                cur = ("in", o[1] % nin)
+            elif o[0] == "dup":
+                cur = prev if prev is not None else ("in", 0)
+            elif o[0] == "op" and noop.get(o[1]) == str(ins[o[2] % nin][1]):
+                cur = ("in", o[2] % nin)  # a cast to the dtype the input already has returns the input itself
+            else:
+                cur = ("out", oi)
+            res_ident.append(cur)
+            prev = cur
+        if params.get("flag"):
+            # the callable adds 1 to every non-bool result when the flag parameter is set: results are new values
+            res_ident = [("out", i) if (r[0] == "in" and ins[r[1]][1].kind != "b") or r[0] == "out" else r for i, r in enumerate(res_ident)]
+        if sig["layout"] == "nested":
+            res_ident = [res_ident[0]] + res_ident[1:] + [res_ident[-1]]
+        ident += res_ident[: len(go)]
+        slot_names = [v.name for v in gi_pos] + [v.name for v in go][: len(ident) - len(gi_pos)]
+        seen_by_name = {}
+        for nm, idn in zip(slot_names, ident):
+            if nm in seen_by_name and seen_by_name[nm] != idn and not params:  # (with input_params the flag rewrites every result: skip)
+                P.append(("name_collision", f"name {nm!r} is carried by two different values: {slot_names}"))
+                break
+            seen_by_name.setdefault(nm, idn)
+    if False:
         names = [v.name for v in gi_pos] + [v.name for v in go]
         # a result that *is* an input, or one value returned twice, legitimately shares a name only if the user did not name both
         if "input_names" in kw and "output_names" in kw and len(set(names)) != len(names):
